@@ -62,3 +62,13 @@ package serve
 //@ ensures [C08 C06] result == nil ==> callswith("AddBackground", 1, "EnqueueTasks") == 1
 //@ ensures [C07 C06] result == nil ==> callswith("AddBackground", 1, "TimeoutTasks") == 1
 //@ ensures [C12 C06] result == nil ==> calls("Loop") == 1 && calls("Stop") == 2
+
+// The goroutine that waits for the order to stop: both termination signals an operator or an orchestrator sends
+// (SIGINT and SIGTERM) lead to the graceful shutdown, as do fatal errors of the api and the aio; on every one of
+// them system.Shutdown is requested exactly once and its completion is awaited (C12: requests already accepted
+// are answered before the process ends, later ones are refused with shutting-down).
+//@ func ServeCmd$1$2
+//@ props C12 C06
+//@ abstract-calls .*
+//@ site call Notify assert len(sig) == 2 && ((dyn(sig[0]) == 2 && dyn(sig[1]) == 15) || (dyn(sig[0]) == 15 && dyn(sig[1]) == 2))
+//@ ensures [body C12 C06] calls("Notify") == 1 && calls("Shutdown") == 1
